@@ -110,8 +110,12 @@ def chaos_spec(rng, ndates, flows=True, capital=1e6):
             acts.append(["read", rng.randrange(64), rng.randrange(64)])
         elif r < 0.9 or not flows:
             acts.append(["observe"])
-        elif r < 0.96:
+        elif r < 0.94:
             acts.append(["flow", round(rng.choice([1, 1, -1]) * rng.choice([0.05, 0.2, 0.5]) * capital, 2)])
+        elif r < 0.97:
+            acts.append(["flow_deferred", round(rng.choice([1, 1, -1]) * rng.choice([0.05, 0.2]) * capital, 2)])
+        elif r < 0.985:
+            acts.append(["nonflow_deferred", round(rng.choice([1, -1]) * rng.choice([0.001, 0.01]) * capital, 2)])
         else:
             acts.append(["nonflow", round(rng.choice([1, -1]) * rng.choice([0.001, 0.01]) * capital, 2)])
     return {"a": "Chaos", "acts": acts}
@@ -141,7 +145,7 @@ def gen_stack(rng, fspec, risk=True, chaos=True, gated=True, capital=1e6, flows=
     else:
         st.append({"a": "Rebalance"})
     if chaos and rng.random() < 0.3:
-        st.append(chaos_spec(rng, len(dates), flows=False, capital=capital))
+        st.append(chaos_spec(rng, len(dates), flows=flows, capital=capital))
     return st
 
 
@@ -230,6 +234,7 @@ class EngineSim(TreeSim):
         self.bkt = None
         self.completed = False
 
+    engine = True
     light = False  # light runs: no taps, no model (twin-run comparisons only need the histories)
 
     def tindex(self, now):
@@ -553,7 +558,13 @@ def gen_all_algos_plan(rng, tier="quick", stateful=False, random_algos=True):
         elif r < 0.8 or not stateful:
             st.append({"a": "RunAfterDate", "date": dates[rng.randint(0, warm)]})
         else:
-            st.append(stateful_sched_spec(rng, dates))
+            ss = stateful_sched_spec(rng, dates)
+            k = rng.random()
+            if k < 0.3:
+                ss = {"a": "Or", "algos": [ss, {"a": "RunOnDate", "dates": [dates[rng.randrange(len(dates))]]}]}
+            elif k < 0.45 and ss["a"] == "RunAfterDays":
+                ss = {"a": "Not", "algo": {"a": "Not", "algo": ss}}
+            st.append(ss)
         if rng.random() < 0.2:
             st.append({"a": "Not", "algo": {"a": "RunOnDate", "dates": [dates[rng.randrange(len(dates))]]}})
         # selection
@@ -570,7 +581,8 @@ def gen_all_algos_plan(rng, tier="quick", stateful=False, random_algos=True):
             st += [{"a": "SelectAll"}, {"a": "StatTotalReturn", "kw": {"lookback": {"days": gap * rng.randint(1, 4) + 1}, "lag": {"days": rng.choice([0, 1])}}}, {"a": "SelectN", "args": [rng.choice([1, 2, 0.5])], "kw": {"sort_descending": rng.random() < 0.5, "filter_selected": rng.random() < 0.5}}]
         elif sk == "SelectWhere":
             nm = "sig%d" % len(extra)
-            extra[nm] = _frame(names, [[rng.random() < 0.6 for _ in names] for _ in dates], dtype="bool")
+            srows = sorted(rng.sample(dates, rng.randint(max(2, len(dates) // 3), len(dates)))) if rng.random() < 0.4 else None
+            extra[nm] = _frame(names, [[rng.random() < 0.6 for _ in names] for _ in (srows or dates)], rows=srows, dtype="bool")
             st.append({"a": "SelectWhere", "args": [nm]})
         elif sk == "SelectRandomly":
             st += [{"a": "SelectAll"}, {"a": "SelectRandomly", "kw": {"n": rng.randint(1, len(names))}}]
@@ -580,7 +592,8 @@ def gen_all_algos_plan(rng, tier="quick", stateful=False, random_algos=True):
             st += [{"a": "SelectAll"}]
         elif sk == "SetStat":
             nm = "stat%d" % len(extra)
-            extra[nm] = _frame(names, [[round(rng.gauss(0, 1), 4) for _ in names] for _ in dates])
+            srows = sorted(rng.sample(dates, rng.randint(max(2, len(dates) // 4), len(dates)))) if rng.random() < 0.5 else None
+            extra[nm] = _frame(names, [[round(rng.gauss(0, 1), 4) for _ in names] for _ in (srows or dates)], rows=srows)
             st += [{"a": "SelectAll"}, {"a": "SetStat", "args": [nm], "kw": {"lag": {"days": rng.choice([0, 0, 1])}}}, {"a": "SelectN", "args": [rng.randint(1, len(names))], "kw": {"filter_selected": True}}]
         if rng.random() < 0.2:
             st.append({"a": "Require", "pred": "nonempty", "item": "selected"})
